@@ -177,7 +177,7 @@ Print Assumptions C18_keyspace_translated.
    redone on every run).  It equals the model OmenTrainer.save_rules; its probability loop is the
    model's omen_prob, so C18_prob holds for what the translated writer puts into pcfg_omen_prob.txt.
    These come LAST: the Require fails when the translation or its equality proofs no longer check. *)
-From Pcfg Require Import OmenTrainer OmenTrainerRt OmenTrainerGenProofsOut OmenTrainerGenInst.
+From Pcfg Require Import OmenTrainer OmenTrainerRt OmenTrainerGenProofsOut OmenTrainerGenInstOut.
 From PcfgGen Require Import OmenTrainerOut_gen.
 
 Theorem C18_source_save_omen_rules_is_model :
